@@ -13,6 +13,7 @@ import (
 	"sort"
 	"strings"
 	"sync"
+	"sync/atomic"
 	"time"
 
 	"verif/core"
@@ -199,6 +200,39 @@ func attribute(comp, opName, key string) string {
 	return key[:i] + "/after-" + opName + key[i:]
 }
 
+// Hung counts steps abandoned by the watchdog (their goroutines keep spinning).
+var Hung atomic.Int64
+
+// guardedStep runs step under a watchdog: an operation that loops forever on
+// a corrupted structure (e.g. a cyclic list) must become a finding, not a hung
+// check. The limit is generous (the operations take microseconds) and a
+// timeout is confirmed by a second, longer attempt before it is believed.
+func (sp *Spec) guardedStep(p Path, op Op) result {
+	try := func(limit time.Duration) (result, bool) {
+		ch := make(chan result, 1)
+		go func() { ch <- sp.step(p, op) }()
+		select {
+		case r := <-ch:
+			return r, true
+		case <-time.After(limit):
+			Hung.Add(1)
+			return result{}, false
+		}
+	}
+	if r, ok := try(10 * time.Second); ok {
+		return r
+	}
+	if r, ok := try(60 * time.Second); ok {
+		return r
+	}
+	s, _ := sp.Build(p)
+	cls := op.N
+	if oc, ok := s.(interface{ OpClass(Op) string }); ok {
+		cls = oc.OpClass(op)
+	}
+	return result{op: op, fails: []Fail{{Key: fmt.Sprintf("%s.%s/does-not-terminate", sp.keyName(), cls), Detail: "the operation (or the observer suite after it) did not return within 60 s"}}}
+}
+
 func trimStack(b []byte) string {
 	lines := strings.Split(string(b), "\n")
 	var out []string
@@ -300,7 +334,7 @@ func (sp *Spec) Run(rep *core.Report) Stats {
 					}()
 					rs := make([]result, 0, len(ops))
 					for _, op := range ops {
-						rs = append(rs, sp.step(p, op))
+						rs = append(rs, sp.guardedStep(p, op))
 					}
 					results[i] = rs
 				}
